@@ -35,7 +35,8 @@ ThetaStep ==
                 <<"SurvivalAndSpreadAreFunctionsOfTheta", E.bad # 0 \/ (E.sp_theta = E.theta /\ E.spread2 = E.theta
                                                                        /\ Abs(E.s0q - E.thetaq) <= 2)>>,
                 <<"ImpliedMapsInvert", E.bad # 0 \/ (E.theta_at_implied = E.theta
-                                                     /\ Abs(E.A2 * 10000 - E.A1 * (10000 + E.x)) <= 6 * 10000)>> >>)
+                                                     /\ Abs(E.A2 * 10000 - E.A1 * (10000 + E.x)) <= 6 * 10000
+                                                     /\ Abs(E.A1m * E.RTm - E.omx) <= E.RTm + Abs(E.A1m) + 10)>> >>)
     /\ ln' = ln + 1 /\ UNCHANGED <<tid, fin>>
 RaiseStep ==
     /\ More /\ E.e = "Raise"
